@@ -189,6 +189,8 @@ def impl_analyse(desc):
         an = DeficiencyAnalyzer(H).compute_crn_deficiency()
     except ValueError:
         return {"error": "ValueError"}
+    except Exception as e:  # noqa: BLE001 - an analysis that raises on a network is an answer too (compared with the model's)
+        return {"error": "raised " + type(e).__name__}
     return observe(an)
 
 
